@@ -1211,7 +1211,7 @@ class Interp:
             if isinstance(r, _Missing):
                 raise Undecided(f"module {base.name} has no {attr}")
             return r
-        if isinstance(base, str):
+        if isinstance(base, (str, bytes)):
             return PyCallable(lambda it, a, k, b=base, at=attr: _str_method(b, at, [list(x.pull()) if isinstance(x, LazyGen) else x for x in a]))
         if isinstance(base, SymStr):
             def _m(it, a, k, b=base, at=attr):
@@ -1816,6 +1816,8 @@ class Interp:
                 return isinstance(v, int)
             if nm == "str":
                 return isinstance(v, str)
+            if nm == "bytes":
+                return isinstance(v, bytes)
             if nm in ("tuple", "list", "dict"):
                 return isinstance(v, {"tuple": tuple, "list": list, "dict": dict}[nm])
         if isinstance(t, Unknown) and "Number" in t.why:
@@ -1897,7 +1899,7 @@ _MISSING = _Missing()
 
 BUILTINS = {"len", "range", "zip", "enumerate", "reversed", "sorted", "list", "tuple", "set", "frozenset", "dict", "min",
             "max", "abs", "round", "float", "int", "str", "bool", "isinstance", "sum", "any", "all", "getattr", "setattr",
-            "hasattr", "print", "pow", "type", "super", "iter", "next", "map", "filter"}
+            "hasattr", "print", "pow", "type", "super", "iter", "next", "map", "filter", "bytes", "open", "repr", "divmod", "callable"}
 
 
 def _walk_own(func):
@@ -1963,7 +1965,7 @@ def _is_integer(b):
 
 def _str_method(b: str, at: str, a):
     if at in ("upper", "lower", "strip", "islower", "isupper", "startswith", "endswith", "replace", "split", "count",
-              "partition", "join", "format", "lstrip", "rstrip", "isdigit", "find"):
+              "partition", "join", "format", "lstrip", "rstrip", "isdigit", "find", "encode", "decode", "splitlines", "title", "capitalize", "zfill", "rsplit", "index", "rfind"):
         if any(_has_sym(x) or isinstance(x, Unknown) for x in a) and not (at == "join" and any(hasattr(x, "sym_join") for x in a[0])):
             raise Undecided("string method with symbolic argument")
         if at == "join":
